@@ -18,6 +18,7 @@ type genCtx struct {
 	nAct   int
 	keys   []string
 	kindOf map[string]string
+	late   [][2]interface{} // (actor, key) pairs that did not enter at the start
 }
 
 func (c *genCtx) localEv(a int) Ev {
@@ -155,7 +156,11 @@ func Gen(prop, tier string, seed uint64) *kernel.Plan {
 			evs = append(evs, Ev{T: "patch", A: creator, K: k, S: g.U64() % 100000})
 		}
 		for a := 0; a < nAct; a++ {
-			if a == creator || g.Chance(1, 5) {
+			if a != creator && g.Chance(1, 5) {
+				c.late = append(c.late, [2]interface{}{a, k})
+				continue
+			}
+			if a == creator {
 				continue
 			}
 			m := "subscribe"
@@ -399,6 +404,15 @@ func Gen(prop, tier string, seed uint64) *kernel.Plan {
 				evs = append(evs, e)
 			}
 		}
+	}
+	if prop == "C18" && len(c.late) > 0 && nAct > 1 && g.Chance(1, 2) {
+		// A client subscribes late and the answer to its subscription is slow; somebody else pushes
+		// meanwhile - announced before the newcomer listens - and then nobody pushes any more.
+		lt := c.late[g.Intn(len(c.late))]
+		a, k := lt[0].(int), lt[1].(string)
+		b := (a + 1 + g.Intn(nAct-1)) % nAct
+		evs = append(evs, Ev{T: "holdresp", A: a, N: g.Range(1, 2)}, Ev{T: "open", A: a, K: k, Kind: c.kindOf[k], Mode: "soc"},
+			c.localEv(b), c.localEv(b))
 	}
 	vary(prop, kernel.NewRng(seed).Derive("vary"), &cfg, evs)
 	cb, _ := json.Marshal(cfg)
